@@ -6408,8 +6408,14 @@ fn eval_expr(
                     ExpressionState::EvaluatedSubexpressions,
                     Rc::clone(&outer_expr),
                 );
-                eval_match_cases(env, expr_value_is_used, &scrutinee.position, cases)
-                    .map_err(|e| (RestoreValues(vec![]), e))?;
+                if let Err(e) =
+                    eval_match_cases(env, expr_value_is_used, &scrutinee.position, cases)
+                {
+                    // No case was entered, so drop the continuation
+                    // we just scheduled: resuming schedules it again.
+                    env.current_frame_mut().exprs_to_eval.pop();
+                    return Err(e);
+                }
             }
             ExpressionState::EvaluatedSubexpressions => {
                 env.current_frame_mut().bindings.pop_block();
@@ -6429,13 +6435,18 @@ fn eval_expr(
                     Rc::clone(&outer_expr),
                 );
 
-                eval_if(
+                if let Err(e) = eval_if(
                     env,
                     expr_value_is_used,
                     &condition.position,
                     then_body,
                     else_body.as_ref(),
-                )?;
+                ) {
+                    // No branch was entered, so drop the continuation
+                    // we just scheduled: resuming schedules it again.
+                    env.current_frame_mut().exprs_to_eval.pop();
+                    return Err(e);
+                }
             }
             ExpressionState::EvaluatedSubexpressions => {
                 env.current_frame_mut().bindings.pop_block();
@@ -7653,7 +7664,7 @@ fn eval_match_cases(
     expr_value_is_used: bool,
     scrutinee_pos: &Position,
     cases: &[(Pattern, Block)],
-) -> Result<(), EvalError> {
+) -> Result<(), (RestoreValues, EvalError)> {
     let scrutinee_value = env
         .pop_value()
         .expect("Popped an empty value stack for match");
@@ -7670,20 +7681,26 @@ fn eval_match_cases(
             Type::from_value(&scrutinee_value),
             scrutinee_value.display(env)
         ))]);
-        return Err(EvalError::Exception(ExceptionInfo {
-            position: scrutinee_pos.clone(),
-            message: msg,
-        }));
+        return Err((
+            RestoreValues(vec![scrutinee_value.clone()]),
+            EvalError::Exception(ExceptionInfo {
+                position: scrutinee_pos.clone(),
+                message: msg,
+            }),
+        ));
     };
 
     let Some(_type) = env.get_type_def(value_type_name) else {
         let msg = ErrorMessage(vec![Text(format!(
             "Could not find an enum type named {value_type_name}"
         ))]);
-        return Err(EvalError::Exception(ExceptionInfo {
-            position: scrutinee_pos.clone(),
-            message: msg,
-        }));
+        return Err((
+            RestoreValues(vec![scrutinee_value.clone()]),
+            EvalError::Exception(ExceptionInfo {
+                position: scrutinee_pos.clone(),
+                message: msg,
+            }),
+        ));
     };
 
     for (pattern, case_expr) in cases {
@@ -7698,10 +7715,13 @@ fn eval_match_cases(
                 msgcode!("{}", pattern.variant_sym.name),
                 msgtext!(" but nothing is defined with that name."),
             ]);
-            return Err(EvalError::Exception(ExceptionInfo {
-                position: pattern.variant_sym.position.clone(),
-                message: msg,
-            }));
+            return Err((
+                RestoreValues(vec![scrutinee_value.clone()]),
+                EvalError::Exception(ExceptionInfo {
+                    position: pattern.variant_sym.position.clone(),
+                    message: msg,
+                }),
+            ));
         };
 
         let (pattern_type_name, pattern_variant_idx) = match value.as_ref() {
@@ -7721,10 +7741,13 @@ fn eval_match_cases(
                     "Patterns must be enum variants, got `{}`",
                     value.display(env)
                 ))]);
-                return Err(EvalError::Exception(ExceptionInfo {
-                    position: pattern.variant_sym.position.clone(),
-                    message: msg,
-                }));
+                return Err((
+                    RestoreValues(vec![scrutinee_value.clone()]),
+                    EvalError::Exception(ExceptionInfo {
+                        position: pattern.variant_sym.position.clone(),
+                        message: msg,
+                    }),
+                ));
             }
         };
 
@@ -7749,10 +7772,13 @@ fn eval_match_cases(
                                     msgcode!("{}", type_representation(payload.as_ref())),
                                     msgtext!("."),
                                 ]);
-                                return Err(EvalError::Exception(ExceptionInfo {
-                                    position: pattern.variant_sym.position.clone(),
-                                    message: msg,
-                                }));
+                                return Err((
+                                    RestoreValues(vec![scrutinee_value.clone()]),
+                                    EvalError::Exception(ExceptionInfo {
+                                        position: pattern.variant_sym.position.clone(),
+                                        message: msg,
+                                    }),
+                                ));
                             }
                         };
 
@@ -7762,10 +7788,13 @@ fn eval_match_cases(
                                 symbols.len(),
                                 items.len(),
                             )]);
-                            return Err(EvalError::Exception(ExceptionInfo {
-                                position: pattern.variant_sym.position.clone(),
-                                message: msg,
-                            }));
+                            return Err((
+                                RestoreValues(vec![scrutinee_value.clone()]),
+                                EvalError::Exception(ExceptionInfo {
+                                    position: pattern.variant_sym.position.clone(),
+                                    message: msg,
+                                }),
+                            ));
                         }
 
                         for (symbol, value) in symbols.iter().zip(items) {
@@ -7795,10 +7824,13 @@ fn eval_match_cases(
     let msg = ErrorMessage(vec![Text(
         "No cases in this `match` statement were reached.".to_owned(),
     )]);
-    Err(EvalError::Exception(ExceptionInfo {
-        position: scrutinee_pos.clone(),
-        message: msg,
-    }))
+    Err((
+        RestoreValues(vec![scrutinee_value.clone()]),
+        EvalError::Exception(ExceptionInfo {
+            position: scrutinee_pos.clone(),
+            message: msg,
+        }),
+    ))
 }
 
 /// Evaluate the toplevel expressions provided, and then stop. If we
